@@ -11,7 +11,9 @@ ID = "C15"
 LEVEL = "exploration"
 EXHAUSTIVE = True
 RULE = ("exhaustive: all 40^3 character triples through '.rad50 /ccc/' in upper and lower case, all 1-3 character "
-        "non-blank strings through '^R' in upper and lower case, every <n> code -1..64 in each of the three positions; "
+        "non-blank strings through '^R' in upper and lower case, every <n> code -1..64 in each of the three positions; every code point "
+        "U+0000..U+1FFFF outside the alphabet (surrogates, '\"' and '\\' excluded) in the middle of a .rad50 string (must be refused as "
+        "invalid-character) and of a ^R literal (must end the literal or be refused, never be packed); "
         "random: strings of 0-12 characters (alphabet and foreign characters) split into quoted and <n> chunks. "
         "Every case is non-trivial; distinct = distinct source line.")
 ASSUMPTIONS = ["RADIX-50 alphabet is DEC's: blank, A-Z, $, ., % (code 29), 0-9",
@@ -29,6 +31,8 @@ def shards(tier):
     for i in range(n):
         specs.append({"part": "caret", "i": i, "n": n})
     specs.append({"part": "codes"})
+    for i in range(n):
+        specs.append({"part": "foreign", "i": i, "n": n})
     k = 8
     per = (1000 if tier == "quick" else 30000) // k
     for i in range(k):
@@ -134,6 +138,52 @@ def run_shard(spec, ctx):
             case = oracle.expect_error(oracle.single(line + "\n"), [ident])
             for sig, msg in oracle.check_expect(case, prefix="caret-len:"):
                 ctx.fail(sig, f"{line!r}: {msg}", case)
+    elif part == "foreign":
+        # every code point outside the alphabet (BMP and the supplementary planes up to U+1FFFF, surrogates excluded) in the middle
+        # of a .rad50 string and of a ^R literal: never packed
+        cps = [cp for cp in range(0x20000) if not 0xD800 <= cp <= 0xDFFF and chr(cp).upper() not in codecs.RAD50_INDEX or (cp > 0x7F and not 0xD800 <= cp <= 0xDFFF)]
+        cps = [cp for cp in cps if chr(cp) not in '"\\'][spec["i"]::spec["n"]]
+        a_word = codecs.words_le(codecs.rad50_pack("A"))
+        for b in range(0, len(cps), 256):
+            chunk = cps[b:b + 256]
+            for form in ("dir", "caret"):
+                lines = [(f'\t.rad50 "A{chr(cp)}Z"' if form == "dir" else f"\t.word ^RA{chr(cp)}Z") for cp in chunk]
+                # raw line breaks inside the tested text would shift the line numbering: those code points go one by one
+                solo = [i for i, cp in enumerate(chunk) if chr(cp) in "\n\r\x0b\x0c\x1c\x1d\x1e\x85\u2028\u2029"]
+                batch = [i for i in range(len(chunk)) if i not in solo]
+                text = "\n".join(lines[i] for i in batch) + "\n"
+                out = driver.assemble([("/vf/r50f.mac", text)])
+                suspects = list(solo)
+                if out.kind in ("crash", "timeout", "silent", "ok-with-errors"):
+                    suspects = list(range(len(chunk)))
+                else:
+                    starts = [0]
+                    for i in batch:
+                        starts.append(starts[-1] + len(lines[i]) + 1)
+                    flagged = set()
+                    import bisect
+                    for sev, ident, spans in out.reports:
+                        if sev == "warning" or not spans or (form == "dir" and ident != "invalid-character"):
+                            continue
+                        flagged.add(bisect.bisect_right(starts, spans[0][1]) - 1)
+                    suspects += [i for k, i in enumerate(batch) if k not in flagged]
+                for i, cp in enumerate(chunk):
+                    ctx.case((form, cp), True, [f"foreign-{form}", "foreign-bmp" if cp < 0x10000 else "foreign-astral"] + (["foreign-folds-into-alphabet"] if any(
+                        t and all(c in codecs.RAD50_INDEX for c in t) for t in (chr(cp).upper(), chr(cp).lower().upper(), chr(cp).casefold().upper())) else []),
+                        sample=lines[i].strip() if cp in (0x131, 0x17F, 0x212A, 0xFB06, 0xE9, 0x21) and form == "dir" or cp in (0x212A, 0x3B) and form == "caret" else None)
+                for i in suspects:
+                    line = lines[i]
+                    if form == "dir":
+                        case = oracle.expect_error(oracle.single(line + "\n"), ["invalid-character"])
+                        for sig, msg in oracle.check_expect(case, prefix="foreign-dir:"):
+                            ctx.fail(sig, f"{line!r} (U+{chunk[i]:04X}): {msg}", case)
+                    else:
+                        o = driver.assemble([("/vf/r50f.mac", line + "\n")])
+                        case = {"kind": "caret-foreign", "cp": chunk[i]}
+                        if o.kind in ("crash", "timeout", "silent", "ok-with-errors"):
+                            ctx.fail(f"foreign-caret:{o.kind}" + (f":{o.exc[0]}@{o.exc[1]}" if o.exc else ""), f"{line!r} (U+{chunk[i]:04X}): {o.kind} {o.exc}", case)
+                        elif o.kind == "ok" and o.code[:2] != a_word:
+                            ctx.fail("foreign-caret:packed", f"{line!r} (U+{chunk[i]:04X}): accepted, first word {o.code[:2].hex()} is not the packing of 'A' alone", case)
     elif part == "random":
         foreign = "!#&*()-_=+[]{}:;,?@^~|`éя¤"
         ch = st.one_of(st.sampled_from(ALPHA), st.sampled_from(ALPHA), st.sampled_from([c.lower() for c in ALPHA[1:27]]),
@@ -192,4 +242,12 @@ def run_shard(spec, ctx):
 
 
 def replay(case):
+    if case["kind"] == "caret-foreign":
+        line = f"\t.word ^RA{chr(case['cp'])}Z"
+        o = driver.assemble([("/vf/r50f.mac", line + "\n")])
+        if o.kind in ("crash", "timeout", "silent", "ok-with-errors"):
+            return [(f"foreign-caret:{o.kind}" + (f":{o.exc[0]}@{o.exc[1]}" if o.exc else ""), f"{line!r}: {o.kind} {o.exc}")]
+        if o.kind == "ok" and o.code[:2] != codecs.words_le(codecs.rad50_pack("A")):
+            return [("foreign-caret:packed", f"{line!r}: accepted, first word {o.code[:2].hex()}")]
+        return []
     return oracle.replay_generic(case)
